@@ -436,6 +436,9 @@ func (g *Gen) loopAssignable(li *loopInfo) map[string]bool {
 			case *ssa.Next:
 				names["$iter"] = true
 			case ssa.CallInstruction:
+				if g.callHasFrameNothing(x) {
+					continue
+				}
 				if ok := g.callAssignable(x, names); !ok {
 					all = true
 				}
@@ -1706,4 +1709,16 @@ func (g *Gen) reinterpret(v Val, to types.Type) Val {
 	}
 	g.errorf("unsupported unsafe re-view %s -> %s", v.S.SMT(), ts.SMT())
 	return g.freshVal("rv", to, nil, "true")
+}
+
+func (g *Gen) callHasFrameNothing(ci ssa.CallInstruction) bool {
+	if g.spec == nil {
+		return false
+	}
+	for _, r := range g.spec.Calls {
+		if r.FrameNothing && g.ruleMatches(r, ci.Common(), "") {
+			return true
+		}
+	}
+	return false
 }
